@@ -124,14 +124,16 @@ class FunctionVerifier:
                     out[p.arg] = self.c.binds[p.arg]
         return out
 
-    def run(self) -> FnReport:
+    def run(self, start=None, budget=None) -> FnReport:
         rep = FnReport(self.c, self.finfo)
         t0 = time.time()
-        ex = Explorer()
+        ex = Explorer(start=start, budget=budget)
+        rep.pending = []
         try:
             results = ex.run(lambda st: self.run_path(st, rep))
             rep.paths = ex.paths_run
             rep.infeasible = ex.infeasible
+            rep.pending = ex.pending
         except Unsupported as exc:
             rep.error = f"unsupported: {exc}"
         except Undecided as exc:
@@ -143,11 +145,6 @@ class FunctionVerifier:
         except Exception as exc:  # noqa: BLE001
             rep.crash = f"{type(exc).__name__}: {exc}\n{traceback.format_exc()}"
         rep.wall = time.time() - t0
-        if rep.error is None and rep.crash is None:
-            if rep.reachable_paths == 0:
-                rep.crash = "vacuous: no path is satisfiable under the preconditions"
-            elif rep.n_obligations == 0:
-                rep.crash = "vacuous: zero obligations generated"
         return rep
 
     # ------------------------------------------------------------------ one path
@@ -184,6 +181,8 @@ class FunctionVerifier:
                 st.ghost[g] = ip.new_list([])
             else:
                 st.ghost[g] = mk_sym(st, ip.tenv, t, "ghost." + g)
+        if c.setup is not None:
+            c.setup(ip, args)
         env = dict(args)
         env.update({"arg_" + k: v for k, v in args.items()})
         if defining is not None:
